@@ -196,7 +196,7 @@ def replay(pid, case):
 
 def run(pid, tier, seed):
     t0 = time.time()
-    k, fmts, nsamp, ncross = (3, ("humanized",), 10, 4) if tier == "quick" else (4, ("humanized", "json"), 125, 8)
+    k, fmts, nsamp, ncross = (3, ("humanized", "json"), 25, 4) if tier == "quick" else (4, ("humanized", "json"), 125, 8)
     seqs = list(all_sequences(k))
     camp = core.Campaign()
     for name, rc in core.regress_cases(pid):
